@@ -169,6 +169,26 @@ def run(F, R, tier):
                     opt = any(x.kind == "cond" and x.pol and cls_call(x.node) for x in g)
                     arg = peel_value(peel(a["r"])["args"][0])
                     ok_set = ok_set and first and opt and arg.get("lid") in idx_lids
+                if not (ok_reset and ok_set) and len(asg) == 1 and peel(asg[0]["r"]).get("k") == "If" and "else" in peel(asg[0]["r"]):
+                    # `start = if optional(pat) { start.or(Some(i)) } else { None }` once per iteration
+                    iff = peel(asg[0]["r"])
+                    c_ = peel(iff["cond"])
+                    neg = c_.get("k") == "Unary" and c_["op"] == "!"
+                    if cls_call(peel(c_["e"]) if neg else c_):
+                        opt_b, req_b = (iff["else"], iff["then"]) if neg else (iff["then"], iff["else"])
+                        ov, rv_ = [], []
+                        _tail_values(F, opt_b, ov)
+                        _tail_values(F, req_b, rv_)
+                        ok_reset = bool(rv_) and all(ctor_of(x) == "std::option::Option::None" for x in rv_)
+                        def keeps_first(x):
+                            x = peel(x)
+                            if not (x.get("k") == "MethodCall" and x["name"] in ("or", "or_else") and peel_value(x["recv"]).get("lid") == L):
+                                return False
+                            somes = [y for y in walk(x["args"][0]) if ctor_of(y) == "std::option::Option::Some"]
+                            return len(somes) == 1 and peel_value(somes[0]["args"][0]).get("lid") in idx_lids
+                        ok_set = bool(ov) and all(keeps_first(x) for x in ov)
+                        bad_, _ = must_pass(F, fors[0]["body"], lambda n: n is asg[0], exit_kinds=("fallthrough", "continue", "break"))
+                        ok_reset = ok_reset and not bad_
                 why = "resets on required parameters: %s; set to the index of the first optional of a run: %s" % (ok_reset, ok_set)
             R.ob("C11-e", "the optional run restarts after every required parameter", init_none and ok_reset and ok_set,
                  "ParamsOptionalStartIndex::build no longer yields the start of the *trailing* run of optional parameters (%s): in `f(a = 1, b, c = 2)` the parameters before a required one would be emitted as optional, which is not the documented normalisation" % why, b["file"])
@@ -177,6 +197,9 @@ def run(F, R, tier):
         cmpn = [n for n in io[0]["_nodes"] if n.get("k") == "Binary" and n["op"] in (">=", "<=", ">", "<", "==", "!=")]
         ok = len(cmpn) == 1 and ((cmpn[0]["op"] == ">=" and peel_value(cmpn[0]["l"]).get("lid") == io[0]["body"]["params"][1].get("lid")) or (cmpn[0]["op"] == "<=" and peel_value(cmpn[0]["r"]).get("lid") == io[0]["body"]["params"][1].get("lid")))
         fb = [n for n in io[0]["_nodes"] if n.get("k") == "MethodCall" and n["name"] == "unwrap_or" and peel(n["args"][0]).get("v") is False]
+        if not fb:
+            # `match self.0 { Some(start) => index >= start, None => false }`
+            fb = [a_ for m_ in io[0]["_nodes"] if m_["k"] == "Match" for a_ in m_["arms"] if ("Option::None" in pat_text(a_["pat"]) or pat_text(a_["pat"]) == "_") and peel(a_["body"]).get("v") is False]
         R.ob("C11-e", "a parameter is optional exactly from the start of the trailing run on", ok and len(fb) == 1, "is_optional_at_index compares `%s`" % (expr_text(cmpn[0]) if cmpn else "?"), io[0]["file"])
 
     # `p?: T` before a required parameter becomes `p: T | undefined`: both halves happen
